@@ -974,6 +974,13 @@ func (k *kctx) method(recv *value, name string, x *ast.CallExpr, e *env, want in
 			}
 		}
 	}
+	if recv.t == tOpaque && strings.HasPrefix(recv.prov, "recv.") && !strings.ContainsAny(recv.prov[5:], ".(#") {
+		if fd := k.fieldMethod(name); fd != nil {
+			if vs, ok := k.tryInline(fd, recv, x, e, want); ok {
+				return vs
+			}
+		}
+	}
 	if fd := k.module.inlinable[name]; fd != nil && recv.t == tOpaque {
 		k.inline(fd, recv, x, e)
 		return opaqueResults(k.prov(x, e), name, nil, want)
